@@ -159,6 +159,7 @@ structure Skeleton where
   clMissingIsError           : Bool
   clInvokeOutsideLock        : Bool  -- CallClosure runs the closure after releasing closuresLock (no lock is held across user code)
   clLockIsMutex              : Bool  -- closuresLock is a plain sync.Mutex locked with Lock/Unlock
+  clTableSites               : Nat   -- number of places in pkg/rpc that touch the closure table (`.closures`): lookup, insert, delete = 3
   /- ---------------- setErr / Link ---------------- -/
   seOrder                    : SetErrOrder
   seFirstOnly                : Bool
@@ -206,6 +207,7 @@ structure Skeleton where
   ucNonErrorPanicMapped      : Bool
   /- ---------------- C20 ---------------- -/
   accesses                   : List Access
+  locksShared                : Bool  -- every mutex guarding shared state is one object for all users: a pointer field, or a value field of a struct only ever used through a pointer (methods with pointer receivers)
   deriving Repr, Inhabited
 
 end Panrpc
